@@ -72,7 +72,12 @@ pub fn explore<R>(
 ) -> DfsStats {
     let mut stats = DfsStats::default();
     let mut stack: Vec<Vec<u32>> = vec![Vec::new()];
+    // memory held by pending prefixes (in u32s): executions that never quiesce (a livelocked subject) have
+    // thousands of choice points each and would otherwise fill the memory with alternatives
+    let mut stack_elems: usize = 0;
+    const MAX_STACK_ELEMS: usize = 24_000_000;
     while let Some(prefix) = stack.pop() {
+        stack_elems = stack_elems.saturating_sub(prefix.len());
         if stats.executions >= caps.max_executions
             || caps.deadline.map(|d| Instant::now() >= d).unwrap_or(false)
         {
@@ -115,6 +120,11 @@ pub fn explore<R>(
                 continue;
             }
             for alt in (1..c.n).rev() {
+                if stack_elems + i + 1 > MAX_STACK_ELEMS {
+                    stats.capped = true;
+                    break;
+                }
+                stack_elems += i + 1;
                 let mut child = Vec::with_capacity(i + 1);
                 child.extend_from_slice(&choices[..i]);
                 child.push(alt);
